@@ -7,7 +7,8 @@ CONSTANTS
   HostLLA = hostlla
   AllNodes = allnodes
   LLAs = {l1, l2}
-  GUAs = {g1}
+  GUAs = {g1, ula1, unspec6, loop6, mc5, map4, allnodes}
+  OtherV6 = {ula1, unspec6, loop6, mc5, map4, allnodes}
   V4s = {a1}
   NoIP = noip
   RouterIPs = {r1, r2}
